@@ -5,4 +5,7 @@ import "verif/vlib"
 // Registry maps property ids to plan constructors.
 var Registry = map[string]func() *vlib.Plan{
 	"C01": C01Plan,
+	"C02": C02Plan,
+	"C12": C12Plan,
+	"C14": C14Plan,
 }
